@@ -75,8 +75,28 @@ def gen_cases(rng, tier):
                     small = any(isinstance(row.get(nm), (datetime.date, datetime.datetime)) and row[nm].year < 1000 for row in rows)
                     if t in ('date', 'time', 'datetime') and not small and rng.chance(0.7):
                         tfp_fields.append([r['name'], nm])
+        # parsing options the incoming descriptor carries on its fields (a European number format, custom boolean
+        # words, a source date format): what is written must decode by what is recorded
+        fprops = []
+        for r in pkg:
+            for nm, t in r['fields']:
+                if rng.chance(0.35):
+                    pr = {'number': [{'decimalChar': ',', 'groupChar': '.'}, {'groupChar': ','}, {'decimalChar': ','}, {'bareNumber': False}],
+                          'boolean': [{'trueValues': ['yes', 'y'], 'falseValues': ['no']}, {'trueValues': ['1'], 'falseValues': ['0']}],
+                          'integer': [{'bareNumber': False}], 'date': [{'format': '%d-%m-%Y'}], 'datetime': [{'format': 'any'}],
+                          'string': [{'format': 'email'}]}.get(t)
+                    if pr and not (t == 'string'):
+                        fprops.append([r['name'], nm, rng.pick(pr)])
+        hashpath = rng.chance(0.3)
+        if hashpath and rng.chance(0.5):
+            # two resources whose written files are byte-identical (the hash directory is shared)
+            twin = copy.deepcopy(pkg[0])
+            twin['name'] = 'twin'
+            pkg.append(twin)
+            fprops += [['twin', b, c] for a, b, c in fprops if a == pkg[0]['name']]
+            tfp_fields += [['twin', b] for a, b in tfp_fields if a == pkg[0]['name']]
         cases.append({'kind': 'roundtrip', 'pkg': pkg, 'format': rng.pick(['csv', 'csv', 'json']), 'zip': rng.chance(0.3),
-                      'hashpath': rng.chance(0.25), 'tfp': tfp, 'tfp_fields': tfp_fields})
+                      'hashpath': hashpath, 'tfp': tfp, 'tfp_fields': tfp_fields, 'fprops': fprops})
     # the CSV layer alone: the model of Python's csv against the csv module, on tables and on arbitrary texts
     alpha = ['a', 'b', ',', '"', '\r', '\n', ' ', 'é']
     for i in range({'quick': 60, 'thorough': 600, 'search': 100}[tier]):
@@ -133,6 +153,9 @@ def run_impl(case):
             f = {'name': nm, 'type': t}
             if case['tfp'] and t in ('date', 'time', 'datetime') and ('tfp_fields' not in case or [r['name'], nm] in case['tfp_fields']):
                 f['outputFormat'] = {'date': '%d/%m/%Y', 'time': '%H.%M.%S', 'datetime': '%Y%m%dT%H%M%S'}[t]
+            for rn, fn, pr in case.get('fprops', []):
+                if rn == r['name'] and fn == nm:
+                    f.update(copy.deepcopy(pr))
             fields.append(f)
         res.append({'name': r['name'], 'fields': fields, 'rows': rows_dec(r['rows'])})
     kw = {'format': case['format'], 'add_filehash_to_path': case['hashpath']}
